@@ -136,7 +136,7 @@ def int_cmp(op, a, b, w, signed):
                     cu = cst & ((1 << w) - 1)
                     lits = []
                     for k in sorted(sh):
-                        lits.append(sh[k] if (cu >> k) & 1 else z3.Not(sh[k]))
+                        lits.append(sh[k] if (cu >> k) & 1 else b_not(sh[k]))
                         cu &= ~(1 << k)
                     if cu != 0:
                         return False
@@ -379,6 +379,33 @@ class FloatCtx(object):
 
     def cut(self, iv):
         """real term for an integer value: const + scale * cutvar(primitive linear form)"""
+        if isinstance(iv, GSum) and any(z3.is_not(g) for g, c in iv.terms.values()):
+            # [not g] = 1 - [g]: express the value over the positive guards, so that counts of a sequence and of
+            # its complement share one variable
+            w = iv.w
+            mask = (1 << w) - 1
+            const = iv.const
+            terms = {}
+            for k, (g, c) in iv.terms.items():
+                if z3.is_not(g):
+                    g2 = g.arg(0)
+                    const = (const + c) & mask
+                    c = (-c) & mask
+                    k = g2.get_id()
+                    g = g2
+                if k in terms:
+                    nc = (terms[k][1] + c) & mask
+                    if nc:
+                        terms[k] = (g, nc)
+                    else:
+                        del terms[k]
+                else:
+                    terms[k] = (g, c)
+            iv2 = GSum(w, const, terms)
+            if not terms:
+                return z3.RealVal(canon(const, w, True))
+            if iv2.range(True) is not None and iv.range(True) is not None:
+                iv = iv2
         if isinstance(iv, GSum):
             w = iv.w
             c0 = canon(iv.const, w, True)
